@@ -555,6 +555,14 @@ def check_rl(case):
     cst, sst = ref_pair(v, s, master, cr, sr, cl_secret=cls, sr_secret=srs,
                         etm=etm)
     peer = sst if client else cst
+    if case.get("seq0"):
+        # deep into the connection: both counters start here (the 64-bit
+        # sequence number is part of every MAC / nonce)
+        r.rl._readState.seqnum = case["seq0"]
+        peer.seq = case["seq0"]
+        labels.append("seq0=2^%d%+d" % (
+            (case["seq0"] + 8).bit_length() - 1,
+            case["seq0"] - (1 << ((case["seq0"] + 8).bit_length() - 1))))
     msgs = [prg(b"A-msg%d/%d" % (salt, i), n)
             for i, n in enumerate(case["lens"])]
     m = case["m"]
@@ -808,7 +816,10 @@ def caseA(draw, tier):
                 st.sampled_from([0, 1, 15, 16, 17, 47, 200]),
                 st.integers(0, 300)), min_size=1, max_size=3)),
             "pad": draw(st.integers(0, 600)),
-            "salt": draw(st.integers(0, 5))}
+            "salt": draw(st.integers(0, 5)),
+            "seq0": draw(st.sampled_from([0, 0, 0, 2 ** 16 - 1, 2 ** 32 - 2,
+                                          2 ** 32 - 1, 2 ** 32, 2 ** 48 - 1,
+                                          2 ** 63 - 1]))}
 
 
 @st.composite
@@ -904,6 +915,14 @@ def explicit(tier, seed):
                            "etm": etm, "client": bool(k % 2), "m": m,
                            "lens": [5, ln], "pad": k + 3 * j + j // 3,
                            "salt": seed % 4}
+        # records on both sides of sequence number 2^32 (and 2^16, 2^48)
+        for q in ((2 ** 32 - 1,) if tier == "quick" else
+                  (2 ** 16 - 1, 2 ** 32 - 2, 2 ** 32 - 1, 2 ** 48 - 1)):
+            for m in ("legal_pad", "wrong_seq"):
+                yield {"level": "A", "suite": sid, "ver": list(v),
+                       "etm": etm, "client": bool(k % 2), "m": m,
+                       "lens": [5, 18, 7], "pad": k, "salt": seed % 4,
+                       "seq0": q}
         for m in ("legal_pad", "bad_pad", "wrong_seq", "other_type",
                   "inner_zero", "outer_type", "overflow", "overflow13",
                   "max_record"):
